@@ -371,6 +371,15 @@ def step (st : Unit) (l : Line) : Step Unit :=
           spec := specIf (decide (ContainsSpec m x b)) "mapcontains:value-present" }
       | none => bad
     | _, _ => bad
+  | "mapcontainsptr", [mv, .int x] =>
+    -- values are pointers, each entry's to its own int: a pointer to a FRESH int equal to x is not a value of the map;
+    -- the pointer stored for an entry of value x is
+    match map? mv with
+    | some m =>
+      let want := [Val.ofBool false, Val.ofBool (MapContains x m)]
+      { st := st, model := some want, tags := ["mapcontains:pointer-values"], nontrivial := MapContains x m
+        spec := specIf (l.res == want) "mapcontains:value-present:pointer-values" }
+    | none => bad
   | "pluck", [cv, .int key] =>
     match coll? cv, l.res with
     | some c, [rv] =>
